@@ -6,6 +6,7 @@ mod machine;
 mod sut;
 mod tree;
 mod gen;
+mod gen_merkle;
 
 use machine::{Machine, Runner};
 use std::io::{BufRead, Write};
@@ -20,6 +21,7 @@ fn new_case(ty: &str, n: usize) -> Option<Box<dyn Runner>> {
         "map_mvreg" => Box::new(Machine::<sut::map::MapMV>::new(n)),
         "map_orswot" => Box::new(Machine::<sut::map::MapOR>::new(n)),
         "map_map_mvreg" => Box::new(Machine::<sut::map::MapMapMV>::new(n)),
+        "merkle" => Box::new(Machine::<sut::merkle::MR>::new(n)),
         "gcounter" => Box::new(Machine::<sut::lattice::GC>::new(n)),
         "pncounter" => Box::new(Machine::<sut::lattice::PN>::new(n)),
         "gset" => Box::new(Machine::<sut::lattice::GS>::new(n)),
@@ -89,6 +91,8 @@ fn main() {
     match args.get(1).map(|s| s.as_str()) {
         Some("run") => run(),
         Some("gen") => gen::main(&args[2..]),
+        Some("merkle_chain") => sut::merkle::chain_witness(&args[2..]),
+        Some("merkle_collide") => sut::merkle::collision_witness(),
         _ => {
             eprintln!("usage: harness run < script | harness gen <profile> <seed> <cases>");
             std::process::exit(2);
